@@ -22,11 +22,12 @@ import (
 )
 
 type scenario struct {
-	cfg   Config
-	steps []Step // directed scenario; nil = random history
-	seed  uint64
-	n     int // number of random operations
-	maxH  int
+	cfg        Config
+	steps      []Step // directed scenario; nil = random history
+	seed       uint64
+	n          int // number of random operations
+	maxH       int
+	exhaustive bool
 }
 
 type replayFile struct {
@@ -54,8 +55,9 @@ func main() {
 		res.Note("no --driver: correspondence with the Lean model not checked")
 	}
 
-	lf, sp := probeVariant()
-	res.Note("variant of the new backend found in the tree: leafFix=%v sysProbeFix=%v", lf, sp)
+	lf, sp, ho := probeVariant()
+	res.Note("variant of the new backend found in the tree: leafFix=%v sysProbeFix=%v histOrderFix=%v", lf, sp, ho)
+	res.Hit(fmt.Sprintf("variant:histOrderFix=%v", ho))
 	res.Hit(fmt.Sprintf("variant:leafFix=%v", lf))
 	res.Hit(fmt.Sprintf("variant:sysProbeFix=%v", sp))
 	if f.Replay != "" {
@@ -65,10 +67,17 @@ func main() {
 	}
 
 	t0 := time.Now()
+	raceProbe(res, false)
+	raceProbe(res, true)
 	var scs []scenario
 	for _, c := range corpus() {
 		scs = append(scs, c)
 	}
+	exh, exhSkipped := exhaustiveScenarios()
+	scs = append(scs, exh...)
+	res.SetExtra("exhaustive_space", fmt.Sprintf("block 0 = deploy 0x104 + slot write, then every applicable sequence of 3 operations over "+
+		"{head revert + %d blocks} (%d sequences run, %d not applicable), both backends, all views after every operation",
+		len(exhaustAlphabet), len(exh), exhSkipped))
 	root := lib.NewRNG(f.Seed)
 	nRandom := f.Scale(30, 160)
 	for i := 0; i < nRandom; i++ {
@@ -131,14 +140,18 @@ func main() {
 				recorded = len(e.fails)
 			}
 			if sc.steps != nil {
-				res.Hit("scenario:directed")
+				if sc.exhaustive {
+					res.Hit("scenario:exhaustive-small-space")
+				} else {
+					res.Hit("scenario:directed")
+				}
 				for _, s := range sc.steps {
 					if s.Op == "store" {
 						if d, err := decodeDiff(s.Version, s.Diff); err == nil {
 							e.describe(d)
 						}
 						e.hit("op:store")
-					} else {
+					} else if s.Op == "revert" {
 						e.hit("op:revert")
 					}
 					if err := e.Apply(s); err != nil {
